@@ -48,6 +48,8 @@ func H_C06_parallel() {
 	plain := WithConfig(Dir(dir), Filename("f"))
 	upd := WithConfig(Dir(dir), Filename("f"), Update(true))
 	vxForceInit()
+	// package-level variables of the library written by a call are scheduling points too
+	vxrt.SharedGlobals("github.com/gkampitakis/go-snaps")
 	ts := [2]*vxMockT{vxNewT(names[0]), vxNewT(names[1])}
 	var wg sync.WaitGroup
 	wg.Add(2)
@@ -117,6 +119,8 @@ func H_C06_twocalls() {
 	}
 	c := WithConfig(Dir(dir), Filename("f"))
 	vxForceInit()
+	// package-level variables of the library written by a call are scheduling points too
+	vxrt.SharedGlobals("github.com/gkampitakis/go-snaps")
 	names := [2]string{"TestA", "TestB"}
 	ts := [2]*vxMockT{vxNewT(names[0]), vxNewT(names[1])}
 	var wg sync.WaitGroup
@@ -154,6 +158,8 @@ func H_C06_three() {
 	plain := WithConfig(Dir(dir), Filename("f"))
 	upd := WithConfig(Dir(dir), Filename("f"), Update(true))
 	vxForceInit()
+	// package-level variables of the library written by a call are scheduling points too
+	vxrt.SharedGlobals("github.com/gkampitakis/go-snaps")
 	ta, tb, tc := vxNewT("TestA"), vxNewT("TestB"), vxNewT("TestC")
 	var wg sync.WaitGroup
 	wg.Add(3)
